@@ -33,9 +33,12 @@ class _ReprIs(object):
         return self.text
 
 
-def ob_redact(p: str, s: str, v: str, vkind: int) -> bool:
+PADS = ['', 'x' * 33, 'x' * 36, 'x' * 39, 'x' * 70]
+
+
+def ob_redact(p: str, s: str, v: str, vkind: int, pad: int = 0) -> bool:
     """a resource whose name contains 'secret' is listed with the marker and none of its value"""
-    key = p + 'secret' + s
+    key = PADS[pad] + p + 'secret' + s
     val = 'V' + v + 'W'                       # a recognisable value: V..W does not occur in the marker or key alphabet
     obj = [val, val.encode('utf8'), [val, 1], {'k': val}, _ReprIs(val), (val,)][R(vkind)]
     info = get_resource_info(_AppStub([(key, obj), ('plain', 'visible')]))
@@ -58,8 +61,8 @@ def ob_visible(key: str, v: str) -> bool:
     return info == [{'key': key, 'value': want}]
 
 
-def tw_redact(p: str, s: str, v: str, vkind: int) -> bool:
-    return ob_redact(p, s, v, vkind) and len(p) == 1 and len(s) == 1
+def tw_redact(p: str, s: str, v: str, vkind: int, pad: int = 0) -> bool:
+    return ob_redact(p, s, v, vkind, pad) and len(p) == 1 and len(s) == 1
 
 
 def ob_mw_key(k: str, named: bool) -> bool:
@@ -75,7 +78,7 @@ def ob_mw_key(k: str, named: bool) -> bool:
 
 
 # ------------------------------------------------------------------ end to end
-SECRET_NAMES = ['secret', 'secret_key', 'db_secret', 'my_secret_token', 'xsecretx', 'topsecret']
+SECRET_NAMES = ['secret', 'secret_key', 'db_secret', 'a_rather_long_resource_name_for_the_payment_gateway_secret', 'xsecretx', 'topsecret']
 PLAIN_NAMES = ['database', 'token', 'SECRET_UPPER', 'secre', 'ecret']
 MARK = 'S3CR3T-VALUE-<&>"\'{}'
 
